@@ -56,6 +56,7 @@ type profile struct {
 	persist  time.Duration
 	triggers bool
 	admin    bool // run index creation / drop concurrently
+	pairs    int  // >0: deterministic op-level interleaving of 2-3 transactions from one goroutine, this many groups
 }
 
 var profiles = map[string]profile{
@@ -65,6 +66,12 @@ var profiles = map[string]profile{
 			{name: "t1", admin: "create t1 (k,u,v) key(k) index unique(u) index(v)", ncols: 3, dom: []int{6, 3, 2}, opt: []bool{false, true, true}},
 			{name: "t0", admin: "create t0 (a,b) key()", ncols: 2, dom: []int{3, 2}, opt: []bool{true, true}},
 			{name: "t2", admin: "create t2 (p,q,r) key(p,q) index(r)", ncols: 3, dom: []int{2, 3, 2}, opt: []bool{false, true, true}},
+		}},
+	"tranpairs": {name: "tranpairs", pairs: 60, maxOps: 4, readFrac: 20, persist: 3 * time.Millisecond,
+		tables: []tableDef{
+			{name: "t1", admin: "create t1 (k,u,v) key(k) index unique(u) index(v)", ncols: 3, dom: []int{4, 3, 2}, opt: []bool{false, true, true}},
+			{name: "t0", admin: "create t0 (a,b) key()", ncols: 2, dom: []int{3, 2}, opt: []bool{true, true}},
+			{name: "t2", admin: "create t2 (p,q,r) key(p,q) index(r)", ncols: 3, dom: []int{2, 2, 2}, opt: []bool{false, true, true}},
 		}},
 	// foreign keys in all three modes + self reference
 	"fkey": {name: "fkey", clients: 3, trans: 40, maxOps: 4, readFrac: 15, persist: 5 * time.Millisecond,
@@ -153,7 +160,13 @@ func scenario(seed int64, sn int) (int, int) {
 	tr.Emit(stateEvent("init", 0, nil, st.Meta, true))
 	var wg sync.WaitGroup
 	var ntran atomic.Int64
-	for c := 0; c < prof.clients; c++ {
+	if prof.pairs > 0 {
+		r := rand.New(rand.NewSource(seed))
+		for g := 0; g < prof.pairs; g++ {
+			ntran.Add(int64(groupInterleaved(r)))
+		}
+	}
+	for c := 0; c < prof.clients && prof.pairs == 0; c++ {
 		wg.Add(1)
 		go func(c int) {
 			defer wg.Done()
@@ -371,7 +384,9 @@ type client struct {
 	ut   *db19.UpdateTran
 	rt   *db19.ReadTran
 	dead bool
+	done bool
 	th   *core.Thread
+	hot  *hotspot // shared by the transactions of one interleaved group
 }
 
 func (c *client) tran() interface {
@@ -385,21 +400,60 @@ func (c *client) tran() interface {
 	return c.rt
 }
 
-func oneTran(r *rand.Rand) {
-	c := &client{r: r, id: int(nextId.Add(1)), th: &core.Thread{}}
-	update := r.Intn(100) >= prof.readFrac
-	tr.Emit(vh.E("BeginCall", "t", c.id))
-	if update {
-		c.ut = db.NewUpdateTran()
-		if c.ut == nil {
-			tr.Emit(vh.E("BeginFail", "t", c.id))
-			return
+// groupInterleaved runs 2-3 transactions whose operations are interleaved at
+// operation granularity by this single goroutine (no scheduler noise: every
+// interleaving of the group's operations is equally likely), then completes them
+// in random order. Returns the number of transactions.
+func groupInterleaved(r *rand.Rand) int {
+	n := 2 + r.Intn(2)
+	hot := &hotspot{table: r.Intn(16), vals: [4]int{r.Intn(60), r.Intn(60), r.Intn(60), r.Intn(60)}}
+	cs := make([]*client, 0, n)
+	left := make([]int, 0, n)
+	for i := 0; i < n; i++ {
+		c := beginTran(r, r.Intn(100) >= prof.readFrac/2)
+		if c == nil {
+			continue
 		}
-		tranIds.Store(c.ut, c.id)
-		tr.Emit(vh.E("Begin", "t", c.id, "kind", "u", "c", snapC(db19.VerifSnapshotMeta(c.ut))))
-	} else {
-		c.rt = db.NewReadTran()
-		tr.Emit(vh.E("Begin", "t", c.id, "kind", "r", "c", snapC(db19.VerifReadMeta(c.rt))))
+		c.hot = hot
+		cs = append(cs, c)
+		left = append(left, 1+r.Intn(prof.maxOps))
+		// sometimes let earlier transactions work before the next one starts
+		for r.Intn(3) == 0 && len(cs) > 0 {
+			j := r.Intn(len(cs))
+			if left[j] > 0 && !cs[j].dead && !cs[j].done {
+				cs[j].op()
+				left[j]--
+			} else {
+				break
+			}
+		}
+	}
+	for {
+		live := []int{}
+		for j, c := range cs {
+			if !c.done {
+				live = append(live, j)
+			}
+		}
+		if len(live) == 0 {
+			break
+		}
+		j := live[r.Intn(len(live))]
+		c := cs[j]
+		if left[j] > 0 && !c.dead {
+			c.op()
+			left[j]--
+		} else {
+			c.finish()
+		}
+	}
+	return len(cs)
+}
+
+func oneTran(r *rand.Rand) {
+	c := beginTran(r, r.Intn(100) >= prof.readFrac)
+	if c == nil {
+		return
 	}
 	nops := 1 + r.Intn(prof.maxOps)
 	for i := 0; i < nops && !c.dead; i++ {
@@ -408,6 +462,30 @@ func oneTran(r *rand.Rand) {
 			runtime.Gosched()
 		}
 	}
+	c.finish()
+}
+
+func beginTran(r *rand.Rand, update bool) *client {
+	c := &client{r: r, id: int(nextId.Add(1)), th: &core.Thread{}}
+	tr.Emit(vh.E("BeginCall", "t", c.id))
+	if update {
+		c.ut = db.NewUpdateTran()
+		if c.ut == nil {
+			tr.Emit(vh.E("BeginFail", "t", c.id))
+			return nil
+		}
+		tranIds.Store(c.ut, c.id)
+		tr.Emit(vh.E("Begin", "t", c.id, "kind", "u", "c", snapC(db19.VerifSnapshotMeta(c.ut))))
+	} else {
+		c.rt = db.NewReadTran()
+		tr.Emit(vh.E("Begin", "t", c.id, "kind", "r", "c", snapC(db19.VerifReadMeta(c.rt))))
+	}
+	return c
+}
+
+func (c *client) finish() {
+	r := c.r
+	c.done = true
 	if c.ut != nil {
 		if !c.dead && r.Intn(12) == 0 {
 			c.ut.Abort()
@@ -441,7 +519,7 @@ func clip(s string) string {
 }
 
 func (c *client) op() {
-	td := prof.tables[c.r.Intn(len(prof.tables))]
+	td := c.pickTable()
 	n := c.r.Intn(100)
 	if c.ut == nil {
 		if n < 50 {
@@ -465,9 +543,31 @@ func (c *client) op() {
 	}
 }
 
+// hotspot makes the transactions of a group collide: a preferred table and
+// preferred values for each column position
+type hotspot struct {
+	table int
+	vals  [4]int
+}
+
+func (c *client) pickTable() tableDef {
+	if c.hot != nil && c.r.Intn(10) < 7 {
+		return prof.tables[c.hot.table%len(prof.tables)]
+	}
+	return prof.tables[c.r.Intn(len(prof.tables))]
+}
+
 func (c *client) randRow(td tableDef) []int {
 	row := make([]int, td.ncols)
 	for i := range row {
+		if c.hot != nil && i < 4 && c.r.Intn(10) < 6 {
+			v := c.hot.vals[i]%td.dom[i] + 1
+			if td.opt[i] && c.hot.vals[i]%5 == 0 {
+				v = 0
+			}
+			row[i] = v
+			continue
+		}
 		if td.opt[i] && c.r.Intn(4) == 0 {
 			row[i] = 0
 		} else {
@@ -629,6 +729,25 @@ func (c *client) output(td tableDef) {
 // pick an existing row through a scan step on the first index (this registers a read)
 func (c *client) pick(td tableDef) (*core.DbRec, []int) {
 	ts := c.schema(td)
+	if ix := c.keyIndex(ts); ix >= 0 && c.r.Intn(2) == 0 {
+		// point lookup of a (hot) key: registers only the point read
+		row := c.randRow(td)
+		key := keyOfVals(ts, ix, row)
+		var dr *core.DbRec
+		got := []any{}
+		var found []int
+		res := c.guard(func() {
+			if dr = c.lookupRec(td, ix, key); dr != nil {
+				found = rowOf(dr.Record, td.ncols)
+				got = append(got, found)
+			}
+		})
+		tr.Emit(vh.E("Lookup", "t", c.id, "tbl", td.name, "ix", ix+1, "key", keyVals(ts, ix, row), "rows", got, "res", res))
+		if res != "ok" || dr == nil {
+			return nil, nil
+		}
+		return dr, found
+	}
 	var found *core.DbRec
 	var row []int
 	steps := 1 + c.r.Intn(4)
